@@ -46,6 +46,8 @@ type boundProver struct {
 	inParam map[*ssa.Parameter]bool
 	// cbMin: for the argument list parameter of every extension callback, the smallest MinArgs it is registered with
 	cbMin map[*ssa.Parameter]int64
+	// inSearchSum: recursion guard of the search summaries
+	inSearchSum map[*ssa.Function]bool
 }
 
 // boundAbstentions: bounds the constant-interval prover cannot establish; keyed "function | construct".
